@@ -176,6 +176,39 @@ func main() {
 			}
 			o.Emit(ln)
 		}
+		// thresholds at and above 2^63: no set of shares a caller can hold is qualified, and no share verifies (the commitment would
+		// need t+1 entries); the conversions of t to int must not wrap
+		for _, th := range []struct {
+			label string
+			t     uint
+		}{{"2^63", 1 << 63}, {"2^63+1", 1<<63 + 1}, {"2^64-2", ^uint(0) - 1}, {"2^64-1", ^uint(0)}} {
+			ss := secretsharing.New(vlib.SeededReader{R: rng}, 2, g.RandomScalar(vlib.SeededReader{R: rng}))
+			shares := ss.Share(4)
+			com := ss.CommitSecret()
+			for _, npick := range []int{0, 1, 4} {
+				ln := ssLine{Ev: "ss-huge", Group: gname[gi], Ids: th.label, N: npick, Pick: []int{}}
+				var err error
+				oc := vlib.Safe(10*time.Second, func() { _, err = secretsharing.Recover(th.t, shares[:npick]) })
+				switch {
+				case oc.Panic != "" || oc.Timeout:
+					ln.Recover, ln.Note = "panic", oc.Panic
+				case err != nil:
+					ln.Recover = "error"
+				default:
+					ln.Recover = "other"
+				}
+				ln.VerifyBadVal = true
+				oc = vlib.Safe(10*time.Second, func() {
+					ln.VerifyDealt = secretsharing.Verify(th.t, shares[0], com)
+					ln.VerifyBadID = secretsharing.Verify(th.t, shares[0], nil)
+					ln.VerifyBadVal = false
+				})
+				if oc.Bad() {
+					ln.Note += " Verify: " + oc.Panic
+				}
+				o.Emit(ln)
+			}
+		}
 		// Polynomial.Evaluate on small integers (exact over Z, no wrap): zero coefficients included
 		for n := 0; n < 60; n++ {
 			deg := rng.Intn(5)
